@@ -141,9 +141,11 @@ class FilterStore(Store):
         get = BoundClass(FilterStoreGet)
 
     def _do_get(self, event: FilterStoreGet) -> bool:
-        for item in self.items:
+        for index, item in enumerate(self.items):
             if event.filter(item):
-                self.items.remove(item)
+                # remove the matched item itself: an earlier item that merely
+                # compares equal to it (1 and 1.0) must stay in the store
+                del self.items[index]
                 event.succeed(item)
                 break
         return True
